@@ -44,6 +44,11 @@ def shards(tier, seed):
         for fk in FACT:
             for D in Ds:
                 out.append(dict(id="C01/%s/%s/D%d" % (lk, fk, D), left=lk, fact=fk, D=D, cost=D, facts=dict(left=lk, fact=fk, D=D)))
+    if tier == "quick":
+        # light pass on a larger size: D=4, R in {1,4}
+        for lk in ("GaussianMeasure", "GaussianPDF"):
+            for fk in FACT:
+                out.append(dict(id="C01/%s/%s/D4.big" % (lk, fk), left=lk, fact=fk, D=4, big=True, cost=6, facts=dict(left=lk, fact=fk, D=4)))
     return out
 
 
@@ -98,8 +103,8 @@ def run_shard(shard, ctx):
     lk, fk0, D = shard["left"], shard["fact"], shard["D"]
     fk = fk0.split(".")[0]
     fwarm = fk0.endswith(".warm")
-    Rs = BOUNDS[tier]["R"]
-    vis = [0, 1, 100] if tier == "quick" else [0, 1, 2, 3, 4, 100, 101, 102]
+    Rs = BOUNDS[tier]["R"] if not shard.get("big") else [1, 4]
+    vis = ([0, 1, 100] if tier == "quick" else [0, 1, 2, 3, 4, 100, 101, 102]) if not shard.get("big") else [0, 100]
     warms = WARM if "PDF" not in lk else ["cold"]
     for R1 in Rs:
         for R2 in Rs:
